@@ -69,6 +69,9 @@ def api(rec, blz, acct):
                  "from_bban-object": lambda: IBAN.from_bban("DE", BBAN("DE", bban), validate_bban=True),
                  "validate": lambda: IBAN(text, allow_invalid=True).validate(validate_bban=True),
                  "own-object": lambda: IBAN(IBAN(text, allow_invalid=True), validate_bban=True),
+                 "revalidate": lambda: IBAN(text).validate(validate_bban=True),          # validated without the flag before
+                 "rewrap-validated": lambda: IBAN(IBAN(text), validate_bban=True),
+                 "bban-of-validated": lambda: IBAN(text).bban.validate_national_checksum(),
                  "ctor": lambda: IBAN(text, validate_bban=True)}
         for name, fn in forms.items():
             try:
@@ -114,6 +117,9 @@ def check_method(rec, m, acct, blz=None):
 
 
 def replay(rec, case):
+    if case["input"].get("origin") == "configurations":
+        from ._configs import replay as _r
+        return _r(rec, case)
     i = case["input"]
     st = state()
     global api
@@ -283,6 +289,35 @@ def shard_meta(arg):
     return rec
 
 
+def shard_literals(arg):
+    """Bank codes and account numbers taken from the literals of the source (vlib/dims.py: literal_dictionary): every method
+    with every account literal, every fitting (bank code, account) pair through the public API, and every account literal
+    with a sample of the listed banks of every method."""
+    seed, tier = arg
+    import random
+    from .. import dims
+    rng = random.Random(f"{seed}:C07:literals")
+    rec = Rec()
+    st = state()
+    lits = [x for x in dims.literal_dictionary() if x.isdigit()]
+    accts = sorted({x.rjust(10, "0") for x in lits if len(x) <= 10})
+    blzs = sorted({x.rjust(8, "0") for x in lits if len(x) <= 8})
+    for m in st["impl"]:
+        for a in accts:
+            want = check_method(rec, m, a)
+            rec.case("source-literals-method", (m, a) if want is not None else None)
+        banks = st["by_method"].get(m, [])
+        for blz in (rng.sample(banks, min(3, len(banks))) if banks else []):
+            for a in accts:
+                check_bank(rec, st, blz, a)
+                rec.case("source-literals-bank", (blz, a))
+    for blz in blzs:
+        for a in accts:
+            check_bank(rec, st, blz, a)
+            rec.case("source-literals-pair", (blz, a))
+    return rec
+
+
 def run(ctx):
     import vlib.lib  # noqa: F401
     from ._shared import selftest_de
@@ -317,12 +352,15 @@ def run(ctx):
     chunk = 120
     ctx.pmap(shard_banks, [(codes[i:i + chunk], ctx.seed, ctx.tier) for i in range(0, len(codes), chunk)])
     ctx.pmap(shard_meta, [(m, ctx.seed, ctx.tier) for m in st["impl"]])
+    ctx.pmap(shard_literals, [(ctx.seed, ctx.tier)])
     need = []
     for m in st["impl"]:
         need.append(f"{m}-accept")
         if m != "09":
             need.append(f"{m}-reject")
-    ctx.require_classes("sparse-accounts", "sibling-warmup", "argument-forms", "bank-implemented", "bank-unimplemented-method", "bank-unlisted", "metamorphic-pair", *need)
+    from ._configs import stage as _config_stage
+    _config_stage(ctx, ['german'])
+    ctx.require_classes("source-literals-method", "source-literals-bank", "source-literals-pair", "sparse-accounts", "sibling-warmup", "argument-forms", "bank-implemented", "bank-unimplemented-method", "bank-unlisted", "metamorphic-pair", *need)
     ctx.extra["per_method"] = {m: {"accept": ctx.rec.classes.get(f"{m}-accept", 0), "reject": ctx.rec.classes.get(f"{m}-reject", 0),
                                    "undecided": ctx.rec.classes.get(f"{m}-undecided", 0)} for m in st["impl"]}
     ctx.extra["implemented_methods"] = len(st["impl"])
